@@ -34,6 +34,10 @@ pub axiom fn ax_str_ext(a: &str, b: &str)
 // ---- TRUSTED: std's iterator adapters as used by input_path_to_segments, with their documented contracts ----
 /// str::split('/'): the pieces between slashes, in order (always at least one piece; no piece contains a '/')
 pub uninterp spec fn slash_strs<'a>(s: &'a str) -> Seq<&'a str>;
+pub open spec fn texts(s: Seq<&str>) -> Seq<Seq<char>> { Seq::new(s.len(), |i: int| s[i]@) }
+/// what `split('/')` computes, on the characters: spec.rs defines slash_split (cut at every '/')
+pub axiom fn ax_split_is_slash_split(s: &str)
+    ensures texts(slash_strs(s)) == slash_split(s@);
 /// the lazy iterator over the pieces (std::str::Split), possibly filtered
 pub struct Pieces<'a> { pub pieces: Ghost<Seq<&'a str>> }
 pub trait SplitSlash { fn split_slash(&self) -> Pieces<'_>; }
